@@ -187,6 +187,17 @@ func (d *docInfo) hazard(s string) { d.hazards = append(d.hazards, s); d.desc = 
 
 type genOpts struct {
 	allowHazards bool
+	// page-tree matrix (C21): forcePages > 0 fixes the number of pages; depth 1..3 makes the inner
+	// nodes a chain of that length below the root with the pages spread over it; inherit places
+	// MediaBox / CropBox / Rotate / Resources: "node" = on every page tree node (root and
+	// intermediate, different values), none on the pages; "nodemixed" = on every node, and on
+	// about half of the pages too; "" = the random placement of the general generator
+	forcePages int
+	depth      int
+	inherit    string
+	// strict: keep the document acceptable to strict validation (PDF 1.4 so that the standard
+	// fonts need no FirstChar/Widths, dates with an explicit UT offset)
+	strict bool
 }
 
 func randValue(r *rand.Rand, b *pdfb, depth int) string {
@@ -334,19 +345,61 @@ func genDoc(r *rand.Rand, opt genOpts) ([]byte, *docInfo) {
 	if r.Intn(10) == 0 {
 		nPages += r.Intn(12)
 	}
+	if opt.forcePages > 0 {
+		nPages = opt.forcePages
+	}
 	rootNode := &node{nr: pagesRoot}
 	inner := []*node{rootNode}
 	nInner := r.Intn(3)
+	if opt.depth > 0 {
+		nInner = opt.depth
+	}
 	for i := 0; i < nInner; i++ {
 		p := inner[r.Intn(len(inner))]
+		if opt.depth > 0 {
+			p = inner[len(inner)-1] // a chain: depth = number of intermediate nodes
+		}
 		n := &node{nr: b.alloc(), parent: p}
 		p.kids = append(p.kids, n)
 		inner = append(inner, n)
 	}
 	for i := 0; i < nPages; i++ {
 		p := inner[r.Intn(len(inner))]
+		if opt.depth > 0 && i == 0 {
+			p = inner[len(inner)-1] // the deepest node is never empty
+		}
 		n := &node{nr: b.alloc(), isPage: true, parent: p}
 		p.kids = append(p.kids, n)
+	}
+	if opt.forcePages > 0 {
+		// no page may be added below: drop inner nodes that stayed empty
+		var prune func(n *node)
+		prune = func(n *node) {
+			var ks []*node
+			for _, k := range n.kids {
+				if !k.isPage {
+					prune(k)
+					if len(k.kids) == 0 {
+						continue
+					}
+				}
+				ks = append(ks, k)
+			}
+			n.kids = ks
+		}
+		prune(rootNode)
+		var live []*node
+		var walk func(n *node)
+		walk = func(n *node) {
+			if !n.isPage {
+				live = append(live, n)
+				for _, k := range n.kids {
+					walk(k)
+				}
+			}
+		}
+		walk(rootNode)
+		inner = live
 	}
 	// every inner node needs at least one page below it, otherwise give it one
 	for _, n := range inner {
@@ -385,6 +438,11 @@ func genDoc(r *rand.Rand, opt genOpts) ([]byte, *docInfo) {
 	resAt := pick(r, "root", "page", "mixed")
 	rotAt := pick(r, "none", "root", "page", "mixed")
 	cropAt := pick(r, "none", "none", "root", "page")
+	if opt.inherit != "" {
+		mediaAt, resAt, rotAt, cropAt = opt.inherit, opt.inherit, opt.inherit, opt.inherit
+	}
+	onNode := func(at string) bool { return at == "node" || at == "nodemixed" }
+	onPage := func(at string) bool { return at == "nodemixed" && r.Intn(2) == 0 }
 	di.note("media@" + mediaAt + " res@" + resAt + " rot@" + rotAt + " crop@" + cropAt)
 
 	var hazardObjs []int
@@ -411,18 +469,20 @@ func genDoc(r *rand.Rand, opt genOpts) ([]byte, *docInfo) {
 			s += fmt.Sprintf(" /Parent %d 0 R", n.parent.nr)
 		}
 		isRoot := n.parent == nil
-		if mediaAt == "root" && isRoot || mediaAt == "mixed" && r.Intn(2) == 0 {
+		if mediaAt == "root" && isRoot || mediaAt == "mixed" && r.Intn(2) == 0 || onNode(mediaAt) {
 			s += " /MediaBox " + mediaBox()
 		}
 		// every page gets effective Resources with font F0 (its content uses it)
-		if (resAt == "root" || resAt == "mixed") && isRoot || resAt == "mixed" && r.Intn(2) == 0 {
+		if (resAt == "root" || resAt == "mixed") && isRoot || resAt == "mixed" && r.Intn(2) == 0 || onNode(resAt) {
 			s += " /Resources " + resValue()
 		}
-		if rotAt == "root" && isRoot || rotAt == "mixed" && r.Intn(3) == 0 {
+		if rotAt == "root" && isRoot || rotAt == "mixed" && r.Intn(3) == 0 || onNode(rotAt) {
 			s += " /Rotate " + pick(r, "0", "90", "180", "270")
 		}
 		if cropAt == "root" && isRoot {
 			s += " /CropBox [20 20 180 280]"
+		} else if onNode(cropAt) {
+			s += " /CropBox " + pick(r, "[20 20 180 280]", "[10 10 150 200]", "[0 0 100 100]")
 		}
 		if opt.allowHazards && r.Intn(25) == 0 {
 			o := b.add("<< /Note (referenced from an entry of a page tree node the writer does not list) >>")
@@ -446,18 +506,18 @@ func genDoc(r *rand.Rand, opt genOpts) ([]byte, *docInfo) {
 	for i, n := range pageNodes {
 		s := fmt.Sprintf("<< /Type /Page /Parent %d 0 R /VerifId %d", n.parent.nr, i+1)
 		// effective MediaBox must exist: if none is inherited for sure, put one on the page
-		if mediaAt == "page" || mediaAt == "mixed" {
+		if mediaAt == "page" || mediaAt == "mixed" || onPage(mediaAt) {
 			s += " /MediaBox " + mediaBox()
-		} else if r.Intn(4) == 0 {
+		} else if !onNode(mediaAt) && r.Intn(4) == 0 {
 			s += " /MediaBox " + mediaBox()
 		}
-		if resAt == "page" || resAt == "mixed" && r.Intn(2) == 0 {
+		if resAt == "page" || resAt == "mixed" && r.Intn(2) == 0 || onPage(resAt) {
 			s += " /Resources " + resValue()
 		}
-		if rotAt == "page" || rotAt == "mixed" && r.Intn(3) == 0 {
+		if rotAt == "page" || rotAt == "mixed" && r.Intn(3) == 0 || onPage(rotAt) {
 			s += " /Rotate " + pick(r, "0", "90", "180", "270")
 		}
-		if cropAt == "page" {
+		if cropAt == "page" || onPage(cropAt) {
 			s += " /CropBox [5 5 150 250]"
 		}
 		// contents
@@ -683,6 +743,16 @@ func genDoc(r *rand.Rand, opt genOpts) ([]byte, *docInfo) {
 	for i := r.Intn(3); i > 0; i-- {
 		b.add(randValue(r, b, 1))
 		di.note("unreferenced")
+	}
+	if opt.strict {
+		b.ver = "1.4"
+		for n, body := range b.objs {
+			body = strings.ReplaceAll(body, "00Z)", "00+00'00')")
+			body = strings.ReplaceAll(body, "06Z)", "06+00'00')")
+			body = strings.ReplaceAll(body, " /UserUnit 2.0", "")
+			body = strings.ReplaceAll(body, " /Tabs /S", "")
+			b.objs[n] = body
+		}
 	}
 	return b.bytes(catalog, info, nil), di
 }
